@@ -117,6 +117,7 @@ func newCreateTable(ct sql.CreateTableStmt) (*Schema, error) {
 				st.setPK([]IndexColumn{
 					{
 						Column:    c.Name,
+						Collate:   c.Collate,
 						SortOrder: c.PrimaryKeyDir,
 					},
 				})
@@ -130,6 +131,7 @@ func newCreateTable(ct sql.CreateTableStmt) (*Schema, error) {
 					[]IndexColumn{
 						{
 							Column:    c.Name,
+							Collate:   c.Collate,
 							SortOrder: c.PrimaryKeyDir,
 						},
 					},
@@ -145,6 +147,7 @@ func newCreateTable(ct sql.CreateTableStmt) (*Schema, error) {
 				[]IndexColumn{
 					{
 						Column:    c.Name,
+						Collate:   c.Collate,
 						SortOrder: sql.Asc,
 					},
 				},
